@@ -140,13 +140,13 @@ def check(run):
         return
     rng = run.rng
     scen = [("mem", False, witness_mem_restart(rng), True)]
-    n = 5 if run.tier == "quick" else 40
+    n = 5 if run.tier == "quick" else 17
     for i in range(n):
         store = "rocks" if i % 5 in (0, 1, 3) else "mem"
         restarts = store == "rocks" or i % 10 == 9
         scen.append((store, store == "rocks" and i % 2 == 1, gen_scenario(rng, store, restarts, 8 + i % 7), False))
     reqs = [{"mode": "cluster", "store": st, "seed": 1000 + i, "purge": purge, "steps": steps} for i, (st, purge, steps, _) in enumerate(scen)]
-    answers = run_parallel(binpath, reqs, nproc=6)
+    answers = run_parallel(binpath, reqs, nproc=6, chunk=1)          # one cluster scenario per process
     exprs, where = [], []
     n_fail = 0
     for i, ((st, purge, steps, is_witness), ans) in enumerate(zip(scen, answers)):
